@@ -237,6 +237,8 @@ func slots(names []string, rich bool) []*gen.Node {
 func bodies(names []string, twoSlots, rich bool) []*gen.Node {
 	out := []*gen.Node{gen.Int("1")}
 	for _, x := range names {
+		// a SECOND key shortcut (behind one that names the string type) whose key type is x
+		out = append(out, gen.Obj(gen.PS(strType, gen.Int("1")), gen.PS(x, gen.Int("2"))))
 		// allOf below the type's root: on an array element and on a property value
 		out = append(out, gen.Arr(gen.Obj().With(gen.R("allOf", `"`+x+`"`))),
 			gen.Obj(gen.P("p", gen.Obj().With(gen.R("allOf", `"`+x+`"`)))))
